@@ -13,8 +13,8 @@ bad=[]
 for k in impl:
     a=impl[k]; b=model.get(k,'')
     if k[0]=='emit':
-        bt=b.split(' ')
-        at=[t for t in a.split(' ') if t.split('=')[0] in [x.split('=')[0] for x in bt]]
+        ak=[x.split('=')[0] for x in a.split(' ')]; bk=[x.split('=')[0] for x in b.split(' ')]
+        at=[t for t in a.split(' ') if t.split('=')[0] in bk]; bt=[t for t in b.split(' ') if t.split('=')[0] in ak]
         if at!=bt: bad.append(k)
     elif a!=b: bad.append(k)
 print(len(impl),"cases; mismatch",len(bad))
